@@ -21,9 +21,19 @@ def variants(case, sb, g, out, drv, key, thorough):
                              base={p: ref.get(p) for p in diff[:1]}, variant={p: r['files'].get(p) for p in diff[:1]}))
             return True
         return False
-    # (a) another working directory
-    r = T.run_real(sb.dir, case, variant='cwd', cwd_mode=lambda b, ins, w: b)
-    out.traces_validated += 1; differs(r, 'changing the working directory')
+    # (a) other working directories: the sandbox root, the parent of the input, and (unless a relative output directory would then land in
+    # the input tree) the input directory itself and one of its sub-directories
+    cwds = [('cwd', 'the sandbox root', lambda b, ins, w: b), ('cwd_up', 'the parent of the input', lambda b, ins, w: os.path.dirname(ins[0]))]
+    if inp['kind'] == 'dir' and case.get('output') != 'rel':
+        sub = case.get('cwd_sub') or next(([c['name']] for c in inp['children'] if 'children' in c and not c.get('dirlink')), None)
+        cwds.append(('cwd_in', 'the input directory', lambda b, ins, w: ins[0]))
+        if sub: cwds.append(('cwd_sub', 'a sub-directory of the input', lambda b, ins, w: os.path.join(ins[0], *sub)))
+    c1 = copy.deepcopy(case)
+    if inp.get('spelled') in ('dot', 'updir'): c1['inputs'][0]['spelled'] = 'abs'      # those spellings bring their own working directory
+    for tag, what, mode in cwds:
+        r = T.run_real(sb.dir, c1, variant=tag, cwd_mode=mode)
+        out.traces_validated += 1
+        if differs(r, 'changing the working directory to ' + what): break
     # (b) the whole input tree moved elsewhere (same directory name)
     r = T.run_real(sb.dir, case, variant='moved', loc=os.path.join('+else+', '+where+', '+q9+'))
     out.traces_validated += 1; differs(r, 'moving the input tree')
@@ -99,6 +109,31 @@ def ascii_names(inp):
     return inp['name'].isascii() and rec(inp.get('children', [])) and all(h['name'].isascii() and rec(h['children']) for h in inp.get('hidden_links', []))
 
 
+def cwd_patterns(g, case):
+    """anchored patterns (a slash in front or inside) that spell a directory or file of the tree the way it is reached from one of the
+    working directories of (a): the parent of the input, the input directory, one of its sub-directories.  Patterns are matched against
+    absolute paths (K7), so none of them matches anything, whatever the working directory"""
+    inp = case['inputs'][0]
+    if inp['kind'] != 'dir': return ['/' + inp['name']] if '\\' not in inp['name'] else []
+    nodes = []
+    def rec(ch, rel):
+        for c in ch:
+            if '\\' in c['name']: continue
+            nodes.append((rel + [c['name']], 'children' in c))
+            if 'children' in c and not c.get('dirlink'): rec(c['children'], rel + [c['name']])
+    rec(inp['children'], [])
+    pats = []
+    for _ in range(g.randint(1, 2) if nodes else 0):
+        rel, isdir = g.choice(nodes)
+        seen_from = g.choice(['parent', 'input', 'sub'])
+        if seen_from == 'sub' and len(rel) >= 2: sub = case.setdefault('cwd_sub', rel[:g.randint(1, len(rel) - 1)])      # the sub-directory (a) runs in
+        if seen_from == 'sub' and len(rel) >= 2 and rel[:len(sub)] == sub and len(rel) > len(sub): comps = rel[len(sub):]
+        else: comps = ([inp['name']] if seen_from == 'parent' else []) + rel
+        pt = '/'.join(comps) + ('/' if isdir and g.random() < 0.7 else '')
+        pats.append('/' + pt if len(comps) == 1 or g.random() < 0.25 else pt)
+    return pats
+
+
 def c17_suite(seed, count, out, drv, thorough=False, budget_s=None):
     t0 = time.time(); done = 0
     for n in range(count):
@@ -106,6 +141,8 @@ def c17_suite(seed, count, out, drv, thorough=False, budget_s=None):
             out.notes.append(f"C17 suite stopped at {done}/{count} (time budget)"); break
         g = random.Random(f"C17/{seed}/{n}")
         case = P.gen_case(g, 'C17')
+        g2 = random.Random(f"C17/cwd/{seed}/{n}")
+        if g2.random() < 0.6: case['patterns'] = list(case.get('patterns', [])) + cwd_patterns(g2, case)
         key = ('C17', seed, n)
         with impl.Sandbox() as sb:
             base, vios = variants(case, sb, g, out, drv, key, thorough)
